@@ -53,6 +53,8 @@ Definition alabel_eqb (a b : alabel) : bool :=
   | ALoad v, ALoad w => status_eqb v w
   | ASwap n o, ASwap n' o' => status_eqb n n' && status_eqb o o'
   | AStore v, AStore w => status_eqb v w
+  (* a swap whose old value the code does not look at and a store are the same write *)
+  | ASwap n _, AStore v | AStore v, ASwap n _ => status_eqb n v
   | APopN b k, APopN b' k' => all2 payload_sim b b' && Bool.eqb k k'
   | ALen n, ALen m => Nat.eqb n m
   | ARecvB i m, ARecvB j m' => Nat.eqb i j && lmsg_eqb m m'
@@ -144,6 +146,7 @@ Fixpoint holders_overlap (nclients : nat) (sched : list nat) (ls : list alabel) 
     let closes := match l with
                   | ACas Running Idle _ => Nat.ltb nclients i
                   | ASwap _ _ => Nat.eqb i 0
+                  | AStore Idle => Nat.eqb i 0       (* the same write with the old value not asked for *)
                   | _ => false end in
     let closed_before := (* the spawner past its Swap (its final kick), a worker past its exit CAS (Len, kick) *)
       match l with
